@@ -22,33 +22,12 @@ func init() {
 	core.Register(&core.Check{ID: "C10", Level: "model_checking", Run: run})
 }
 
-// recursion: plain recursion of the given depth with a closure alive across the deep call
-func recursion(id, depth int) M {
-	defs := map[string]M{
-		"down": Def([]string{"n"}, "Int", false, B(
-			Let("loc", "Int", Bin("*", Var("n"), Int(2))),
-			If(Bin("<=", Var("n"), Int(0)), B(Return(Int(0))), L{}),
-			CallDecl("r", "down", Bin("-", Var("n"), Int(1))),
-			Return(Bin("+", Bin("+", Var("r"), Int(1)), Bin("-", Var("loc"), Var("loc")))))),
-	}
-	body := B(Let("x", "Int", Int(7)),
-		Lam("inc", nil, "Int", B(Set("x", Bin("+", Var("x"), Int(1))), Return(Var("x")))),
-		CallCDecl("a", "inc"), Print(Var("a")),
-		CallDecl("d", "down", Int(depth)), Print(Var("d")),
-		CallCDecl("b", "inc"), Print(Var("b")), Print(Var("x")), Return(Int(0)))
-	defs["main_"] = Def(nil, "Int", false, body)
-	p := Prog(id, defs)
-	p["desc"] = fmt.Sprintf("recursion depth %d with a live closure", depth)
-	p["tags"] = ""
-	return p
-}
-
 func run(c *core.Ctx) error {
 	var progs []M
 	id := 0
-	for _, d := range []int{10, 100, 300, 1000} {
+	for _, d := range []int{10, 100, 300, 600, 900} {
 		id++
-		progs = append(progs, recursion(id, d))
+		progs = append(progs, c13.Dormant(id, d))
 	}
 	cl := c13.Corpus(c.Rand, c.Pick(60, 600), id+1, 400)
 	progs = append(progs, cl...)
@@ -65,7 +44,8 @@ func run(c *core.Ctx) error {
 	c.Logf("instance: %d programs (recursion, closures, generators/async, control flow)", len(progs))
 
 	cfgs := []*elkrun.Cfg{
-		{PoolSize: 2, QueueSize: 8}, // reference configuration (default stacks)
+		{InitStackSlots: 400000, PoolSize: 2, QueueSize: 8}, // reference configuration: the value stack never grows
+		{PoolSize: 2, QueueSize: 8},                         // the defaults
 		{InitStackSlots: 64, PoolSize: 1, QueueSize: 1},
 		{InitStackSlots: 32, PoolSize: 4, QueueSize: 2},
 		{InitStackSlots: 128, CallStack: 2048, PoolSize: 1, QueueSize: 256},
